@@ -424,6 +424,25 @@ func (s *session) view() []entryJ {
 	return rows
 }
 
+// newEntry builds a fresh entry object as a plugin would.
+func (s *session) newEntry(e entryJ) *verifexport.TabListEntry {
+	attrs := verifexport.TabListEntryAttributes{
+		Profile:   profile.GameProfile{ID: uuidOf(e.ID), Name: e.Name},
+		Latency:   time.Duration(e.Lat) * time.Millisecond,
+		GameMode:  e.Gm,
+		Listed:    e.Listed,
+		ListOrder: e.Order,
+		ShowsHat:  e.Hat,
+	}
+	for _, p := range e.Props {
+		attrs.Profile.Properties = append(attrs.Profile.Properties, profile.Property{Name: p[0], Value: p[1], Signature: p[2]})
+	}
+	if e.Hasdisp {
+		attrs.DisplayName = &component.Text{Content: e.Disp}
+	}
+	return &verifexport.TabListEntry{OwningTabList: s.tl, EntryAttributes: attrs}
+}
+
 func (s *session) touch(ids ...int) {
 	for _, i := range ids {
 		s.lastK[i] = ""
@@ -450,25 +469,21 @@ func (s *session) do(o opJ) (how string, forwarded []any, err error) {
 					how = "replace-profile"
 				}
 			}
-			attrs := verifexport.TabListEntryAttributes{
-				Profile:   profile.GameProfile{ID: uuidOf(o.ID), Name: o.E.Name},
-				Latency:   time.Duration(o.E.Lat) * time.Millisecond,
-				GameMode:  o.E.Gm,
-				Listed:    o.E.Listed,
-				ListOrder: o.E.Order,
-				ShowsHat:  o.E.Hat,
-			}
-			for _, p := range o.E.Props {
-				attrs.Profile.Properties = append(attrs.Profile.Properties, profile.Property{Name: p[0], Value: p[1], Signature: p[2]})
-			}
-			if o.E.Hasdisp {
-				attrs.DisplayName = &component.Text{Content: o.E.Disp}
-			}
-			ent = &verifexport.TabListEntry{OwningTabList: s.tl, EntryAttributes: attrs}
+			ent = s.newEntry(o.E)
 		}
 		s.last[o.ID], s.lastK[o.ID] = ent, k
 		s.how = how
 		err = s.tl.Add(ent)
+	case "addmany":
+		var ents []tablist.Entry
+		for _, e := range o.Entries {
+			ents = append(ents, s.newEntry(e))
+			s.touch(e.ID)
+			delete(s.last, e.ID)
+		}
+		how = fmt.Sprintf("%d-entries", len(ents))
+		s.how = how
+		err = s.tl.Add(ents...)
 	case "set":
 		ent := s.tl.Entries()[uuidOf(o.ID)]
 		if ent == nil {
